@@ -1,5 +1,6 @@
 """C18 — The tabular environment serves the data it was given (structural part)."""
 import ast
+import re
 from sa.lib import *
 from sa.forward import Forward
 from sa.dataflow import Poly, cmp_key
@@ -43,6 +44,31 @@ def s1(ck, an):
     subj = fa.f.short
     evs = [c for c in walk_function(fa.f.node) if isinstance(c, ast.Call) and fa.sym.canon(c.func) == "EventNBBO"]
     ck.floor("EventNBBO constructions in add_prices", len(evs), 1)
+    # the table of prices itself (labels included) is served as given: nothing re-labels, re-indexes or edits it on the way to
+    # the rows the quotes are made from (the value ids of the rows are over `prices`: a store INTO it would not show in them)
+    pp_ = fa.f.params[1]
+    tables = {pp_} | {d.var for d in fa.rd.defs if d.kind in ("assign", "ann") and d.value is not None and re.search(r"\b%s\b" % re.escape(pp_), fa.sym.canon(d.value, d.node)) is not None}
+    edits = []
+    for n in walk_function(fa.f.node):
+        tg = None
+        if isinstance(n, (ast.Attribute, ast.Subscript)) and isinstance(n.ctx, (ast.Store, ast.Del)):
+            root = n
+            while isinstance(root, (ast.Attribute, ast.Subscript)):
+                root = root.value
+            if isinstance(root, ast.Name) and root.id in tables:
+                tg = n
+        elif isinstance(n, ast.Call) and isinstance(n.func, ast.Attribute) and any(k.arg == "inplace" and const_value(k.value) is True for k in n.keywords):
+            root = n.func.value
+            while isinstance(root, (ast.Attribute, ast.Subscript)):
+                root = root.value
+            if isinstance(root, ast.Name) and root.id in tables and n.func.attr != "dropna":
+                tg = n
+        if tg is not None:
+            edits.append(tg)
+    for tg in edits:
+        ck.fail("EFFECT", "S1.prices-table-untouched", subj, fa.loc(tg), f"add_prices edits the table it was given ({ast.unparse(tg)[:60]}): labels / times / values of the quotes no longer are the ones given", construct=stmt_text(tg))
+    if not edits:
+        ck.ok("EFFECT", "S1.prices-table-untouched", subj, fa.f.loc, "add_prices does not store into the given table (index, columns, cells) nor edit it in place; only missing prices are dropped", construct="prices table")
     info = {}
 
     def on_stmt(s, fw):
